@@ -1428,7 +1428,7 @@ impl Typer {
         for param in params.iter() {
             let name_str = self.hir_table.local_ident_name(param.name);
             let param_ty = match &param.ty {
-                Some(ty) => tast::Ty::from_hir(genv, ty, &current_tparams_env),
+                Some(ty) => annotation_ty(genv, diagnostics, ty, &current_tparams_env),
                 None => self.fresh_ty_var(),
             };
             local_env.insert_var(param.name, param_ty.clone());
@@ -1482,7 +1482,7 @@ impl Typer {
                     let annotated_ty = param
                         .ty
                         .as_ref()
-                        .map(|ty| tast::Ty::from_hir(genv, ty, &current_tparams_env));
+                        .map(|ty| annotation_ty(genv, diagnostics, ty, &current_tparams_env));
 
                     let param_ty = match annotated_ty {
                         Some(ann_ty) => {
@@ -1537,7 +1537,7 @@ impl Typer {
         let current_tparams_env = local_env.current_tparams_env();
         let annotated_ty = annotation
             .as_ref()
-            .map(|ty| tast::Ty::from_hir(genv, ty, &current_tparams_env));
+            .map(|ty| annotation_ty(genv, diagnostics, ty, &current_tparams_env));
 
         let (value_tast, value_ty) = if let Some(ann_ty) = &annotated_ty {
             (
@@ -1623,7 +1623,7 @@ impl Typer {
         let current_tparams_env = local_env.current_tparams_env();
         let annotated_ty = annotation
             .as_ref()
-            .map(|ty| tast::Ty::from_hir(genv, ty, &current_tparams_env));
+            .map(|ty| annotation_ty(genv, diagnostics, ty, &current_tparams_env));
 
         let (value_tast, value_ty) = if let Some(ann_ty) = &annotated_ty {
             (
@@ -2976,6 +2976,21 @@ fn has_visible_trait_impl(genv: &PackageTypeEnv, trait_name: &str, for_ty: &tast
     genv.deps
         .values()
         .any(|env| env.trait_env.trait_impls.contains_key(&key))
+}
+
+/// A type written inside a function body (let annotation, closure parameter) is validated like
+/// the types of signatures and definitions are: unknown names, wrong numbers of type arguments
+/// (`Opt[E[int32]]` for a non-generic `E`) are reported here instead of reaching later passes.
+fn annotation_ty(
+    genv: &PackageTypeEnv,
+    diagnostics: &mut Diagnostics,
+    ty: &hir::TypeExpr,
+    tparams_env: &[tast::TastIdent],
+) -> tast::Ty {
+    let out = tast::Ty::from_hir(genv, ty, tparams_env);
+    let tparams = tparams_env.iter().map(|t| t.0.clone()).collect();
+    super::util::validate_ty(genv, diagnostics, &out, &tparams);
+    out
 }
 
 fn integer_literal_target(expected: &tast::Ty) -> Option<tast::Ty> {
